@@ -122,6 +122,13 @@ func (t *T) FixClock() {}
 // Choose is a decision among n alternatives (the engine explores all).
 func (t *T) Choose(tag string, n int) int { return int(t.next("choose", tag)) }
 
+// Observed carries a (concrete) value the harness computed while the code under
+// test ran into the replay: under the engine it returns x and records it;
+// natively — where the part of the scenario that produced x may not be
+// re-run (a crash image is materialised instead) — it returns the recorded
+// value.
+func (t *T) Observed(tag string, x int) int { return int(t.next("observed", tag)) }
+
 // Assume restricts the inputs (states a bound or a documented precondition).
 func (t *T) Assume(c bool) {
 	if !c {
